@@ -7,8 +7,6 @@ Open Scope Z_scope.
 (* connection-level facts *)
 Definition DI (d : db) : Prop := dirty d = true -> in_txn d = true.
 Definition iso_default (d : db) : Prop := iso d = 0 /\ autoc d = false.
-(* every characteristic that was set has a pending finaliser *)
-Definition CI (c : cst) : Prop := nfin c = O -> iso_default (cdb c).
 Definition PoolOk (s : st) : Prop := match idle s with Some d => pristine d = true | None => True end.
 Definition PoolIso (s : st) : Prop := match idle s with Some d => iso_default d | None => True end.
 
@@ -18,49 +16,45 @@ Proof.
   rewrite !andb_true_iff, !negb_true_iff, Z.eqb_eq. tauto.
 Qed.
 
-Lemma next_fault_frame : forall s c s', next_fault s = (c, s') ->
+(* frame of the DBAPI calls: only the fault script and the log change *)
+Definition Fr (s s' : st) : Prop :=
   idle s' = idle s /\ bad_close s' = bad_close s /\ twr_unsound s' = twr_unsound s /\ nconn s' = nconn s.
-Proof. unfold next_fault; intros. destruct (faults s); inversion H; subst; cbn; auto. Qed.
+Lemma Fr_refl : forall s, Fr s s. Proof. intros; repeat split. Qed.
+Lemma Fr_trans : forall a b c, Fr a b -> Fr b c -> Fr a c.
+Proof. intros a b c (?&?&?&?) (?&?&?&?); repeat split; congruence. Qed.
+
+Lemma next_fault_frame : forall s c s', next_fault s = (c, s') -> Fr s s'.
+Proof. unfold next_fault, Fr; intros. destruct (faults s); inversion H; subst; cbn; auto. Qed.
 
 Lemma db_commit_spec : forall d s ok d' s', db_commit d s = (ok, d', s') ->
-  idle s' = idle s /\ bad_close s' = bad_close s /\ twr_unsound s' = twr_unsound s /\ nconn s' = nconn s /\
-  (if ok then d' = clean d else d' = d).
+  Fr s s' /\ (if ok then d' = clean d else d' = d).
 Proof.
   unfold db_commit; intros. destruct (next_fault (add_log s 1)) as [c s2] eqn:E.
-  apply next_fault_frame in E. cbn in E. destruct E as (E1 & E2 & E3 & E4).
-  destruct (fkbad d || (c =? 1)); inversion H; subst; auto 10.
+  apply next_fault_frame in E. destruct (fkbad d || (c =? 1)); inversion H; subst; auto.
 Qed.
 Lemma db_rollback_spec : forall d s ok d' s', db_rollback d s = (ok, d', s') ->
-  idle s' = idle s /\ bad_close s' = bad_close s /\ twr_unsound s' = twr_unsound s /\ nconn s' = nconn s /\
-  (if ok then d' = clean d else d' = d).
+  Fr s s' /\ (if ok then d' = clean d else d' = d).
 Proof.
   unfold db_rollback; intros. destruct (next_fault (add_log s 2)) as [c s2] eqn:E.
-  apply next_fault_frame in E. cbn in E. destruct E as (E1 & E2 & E3 & E4).
-  destruct (c =? 1); inversion H; subst; auto 10.
+  apply next_fault_frame in E. destruct (c =? 1); inversion H; subst; auto.
 Qed.
 
 Lemma db_set_iso_spec : forall l d s d' s', db_set_iso l d s = (d', s') ->
-  idle s' = idle s /\ bad_close s' = bad_close s /\ twr_unsound s' = twr_unsound s /\ nconn s' = nconn s /\
-  in_txn d' = in_txn d /\ dirty d' = dirty d /\ (l = 0 -> iso_default d').
+  Fr s s' /\ in_txn d' = in_txn d /\ dirty d' = dirty d /\ fkbad d' = fkbad d /\ cid d' = cid d /\ (l = 0 -> iso_default d').
 Proof.
-  unfold db_set_iso, iso_default; intros l d s d' s' H. inversion H; subst; clear H.
-  destruct (l =? 2) eqn:E; cbn; do 6 (split; [reflexivity|]); intros ->; cbn in E; try discriminate; auto.
+  unfold db_set_iso, iso_default, Fr; intros l d s d' s' H. inversion H; subst; clear H.
+  destruct (l =? 2) eqn:E; cbn; (split; [auto|]); do 4 (split; [reflexivity|]); intros ->; cbn in E; try discriminate; auto.
 Qed.
 
 Lemma run_finalizers_spec : forall n d s d' s', run_finalizers n d s = (d', s') ->
-  idle s' = idle s /\ bad_close s' = bad_close s /\ twr_unsound s' = twr_unsound s /\ nconn s' = nconn s /\
-  in_txn d' = in_txn d /\ dirty d' = dirty d /\ ((n <> O \/ iso_default d) -> iso_default d').
+  Fr s s' /\ in_txn d' = in_txn d /\ dirty d' = dirty d /\ ((n <> O \/ iso_default d) -> iso_default d').
 Proof.
-  induction n; intros d s d' s' H; cbn in H.
-  - inversion H; subst. do 6 (split; [reflexivity|]). intros [?|?]; [congruence|auto].
+  induction n; intros d s d' s' H; cbn [run_finalizers] in H.
+  - inversion H; subst. split; [apply Fr_refl|]. do 2 (split; [reflexivity|]). intros [?|?]; [congruence|auto].
   - destruct (db_set_iso 0 d s) as [d1 s1] eqn:E. apply db_set_iso_spec in E.
-    destruct E as (E1 & E2 & E3 & E4 & E5 & E6 & E7). apply IHn in H.
-    destruct H as (H1 & H2 & H3 & H4 & H5 & H6 & H7).
-    do 6 (split; [congruence|]). intros _. apply H7. right. auto.
+    destruct E as (E1 & E2 & E3 & E4 & E5 & E6). apply IHn in H. destruct H as (H1 & H2 & H3 & H4).
+    split; [exact (Fr_trans _ _ _ E1 H1)|]. split; [rewrite H2; exact E2|]. split; [rewrite H3; exact E3|]. intros _. apply H4. right. apply E6. reflexivity.
 Qed.
-
-Lemma clean_spec : forall d, in_txn (clean d) = false /\ dirty (clean d) = false /\ iso (clean d) = iso d /\ autoc (clean d) = autoc d.
-Proof. intros; cbn; auto. Qed.
 
 Section P.
 Variable reset : rstyle.
@@ -80,28 +74,324 @@ Proof.
                (twr_unsound s0 = true -> twr_unsound s = true \/ (twr = true /\ in_txn d = true))).
   { subst s0. destruct twr, (in_txn d); cbn; auto 10. }
   destruct F0 as (F1 & F2 & F3 & F4).
-  match goal with |- context [let '(_, _, _) := ?e in _] => destruct e as [[ok d1] s1] eqn:E end.
-  assert (G : bad_close s1 = bad_close s /\ nconn s1 = nconn s /\ twr_unsound s1 = twr_unsound s0 /\
-              (if ok then (d1 = clean d \/ (d1 = d /\ (reset = RNone \/ (reset = RRollback /\ twr = true)))) else True)).
+  match goal with |- context [match ?e with (_, _) => _ end] =>
+    match type of e with (bool * db * st)%type => destruct e as [[ok d1] s1] eqn:E end end.
+  assert (G : Fr s0 s1 /\
+              (ok = true -> (d1 = clean d /\ reset <> RNone) \/ (d1 = d /\ (reset = RNone \/ (reset = RRollback /\ twr = true))))).
   { destruct reset.
     - destruct twr.
-      + inversion E; subst. repeat split; auto. right. auto.
-      + apply db_rollback_spec in E. destruct E as (E1 & E2 & E3 & E4 & E5).
-        repeat split; try congruence. destruct ok; auto.
-    - apply db_commit_spec in E. destruct E as (E1 & E2 & E3 & E4 & E5).
-      repeat split; try congruence. destruct ok; auto.
-    - inversion E; subst. repeat split; auto. }
-  destruct G as (G1 & G2 & G3 & G4).
+      + inversion E; subst. split; [apply Fr_refl|]. intros _. right. auto.
+      + apply db_rollback_spec in E. destruct E as [E1 E2]. split; [auto|]. intros ->. left. split; [auto|discriminate].
+    - apply db_commit_spec in E. destruct E as [E1 E2]. split; [auto|]. intros ->. left. split; [auto|discriminate].
+    - inversion E; subst. split; [apply Fr_refl|]. intros _. right. auto. }
+  destruct G as ((G1 & G2 & G3 & G4) & G5).
   destruct ok.
   - destruct (run_finalizers nf d1 s1) as [d2 s2] eqn:Er. apply run_finalizers_spec in Er.
-    destruct Er as (R1 & R2 & R3 & R4 & R5 & R6 & R7).
+    destruct Er as ((R1 & R2 & R3 & R4) & R5 & R6 & R7).
     cbn. split; [congruence|]. split; [congruence|]. split; [intros; apply F4; congruence|].
-    assert (I1 : (nf = O -> iso_default d) -> iso_default d1).
-    { intros Hd. destruct G4 as [->|[-> _]].
-      - admit.
-      - admit. }
-    admit.
+    assert (I1 : (nf = O -> iso_default d) -> iso_default d2).
+    { intros Hd. apply R7. destruct nf; [right|left; discriminate].
+      specialize (Hd eq_refl). destruct (G5 eq_refl) as [[-> _]|[-> _]]; auto. }
+    split.
+    + intros Hd. unfold PoolIso; cbn. destruct kind; cbn; auto.
+    + intros Hd HDI Hr Ht. unfold PoolOk; cbn. destruct kind; cbn; auto;
+        apply pristine_spec; (split; [|split; [|auto]]); rewrite ?R5, ?R6;
+        destruct (G5 eq_refl) as [[-> _]|[-> [->|[-> ->]]]]; cbn; auto; try congruence;
+        try (apply Ht; auto);
+        try (destruct (dirty d) eqn:Ed; auto; rewrite HDI in *; auto; rewrite Ht in *; auto; discriminate).
   - cbn. split; [congruence|]. split; [congruence|]. split; [intros; apply F4; congruence|].
     unfold PoolIso, PoolOk; cbn. auto.
-Admitted.
+Qed.
+
+(* ---- one operation of a user *)
+(* every characteristic that was set has a pending finaliser *)
+Definition CI (c : cst) : Prop := nfin c = O -> iso_default (cdb c).
+(* the ghost flags only go up *)
+Definition Up (s s' : st) : Prop :=
+  (bad_close s = true -> bad_close s' = true) /\
+  (twr_unsound s' = true -> twr_unsound s = true \/ bad_close s' = true).
+
+Ltac dd := let X := fresh in intro X; discriminate X.
+
+Lemma Fr_Up : forall s s', Fr s s' -> Up s s'.
+Proof. intros s s' (F1 & F2 & F3 & F4). unfold Up. rewrite F2, F3. auto. Qed.
+
+Lemma clean_DI : forall d, DI (clean d).
+Proof. intros d H. cbn in H. discriminate. Qed.
+
+(* the three ways a checkout ends through _finalize_fairy *)
+Lemma finalize_end : forall d nf twr s, (nf = O -> iso_default d) -> DI d ->
+  (twr = true -> in_txn d = true -> bad_close s = true) ->
+  let s' := finalize reset kind d nf twr s in
+  Up s s' /\ PoolIso s' /\ (reset <> RNone -> bad_close s' = false -> PoolOk s').
+Proof.
+  intros d nf twr s HC HD Ht. destruct (finalize_spec d nf twr s) as (F1 & F2 & F3 & F4 & F5). cbv zeta.
+  split; [|split; [auto|]].
+  - unfold Up. rewrite F1. split; [auto|]. intros H. destruct (F3 H) as [?|[? ?]]; auto.
+  - intros Hr Hb. apply F5; auto. intros -> _. destruct (in_txn d) eqn:E; auto.
+    rewrite F1 in Hb. rewrite Ht in Hb; auto; discriminate.
+Qed.
+
+Lemma do_op_spec : forall o c s code c' s', do_op reset kind o c s = (code, c', s') ->
+  CI c -> DI (cdb c) -> done c = false ->
+  CI c' /\ DI (cdb c') /\ Up s s' /\
+  (done c' = false -> idle s' = idle s) /\
+  (done c' = true -> PoolIso s' /\ (reset <> RNone -> bad_close s' = false -> PoolOk s')).
+Proof.
+  intros o c s code c' s' H HC HD Hdn. unfold CI in *.
+  assert (U0 : Up s s) by (apply Fr_Up, Fr_refl).
+  destruct c as [d t nf dn]. cbn [cdb txn nfin done] in *. subst dn.
+  destruct o; cbn [do_op cdb txn nfin done] in H.
+  - (* write *)
+    destruct t as [[|]|]; inversion H; subst; clear H; cbn [cdb txn nfin done];
+      (split; [|split; [|split; [auto|split; [auto|dd]]]]); auto.
+    + intros Hn. specialize (HC Hn). unfold iso_default in *. destruct (autoc d) eqn:Ea; cbn; rewrite ?Ea; tauto.
+    + unfold DI in *. destruct (autoc d); cbn; auto.
+    + intros Hn. specialize (HC Hn). unfold iso_default in *. destruct (autoc d) eqn:Ea; cbn; rewrite ?Ea; tauto.
+    + unfold DI in *. destruct (autoc d); cbn; auto.
+  - (* commit *)
+    destruct t as [[|]|].
+    + destruct (db_commit d s) as [[ok d1] s1] eqn:E. apply db_commit_spec in E. destruct E as [E1 E2].
+      destruct ok; subst d1; inversion H; subst; clear H; cbn [cdb txn nfin done].
+      * split; [exact HC|]. split; [apply clean_DI|]. split; [apply Fr_Up; auto|]. split; [destruct E1; auto|dd].
+      * split; [exact HC|]. split; [exact HD|]. split; [apply Fr_Up; auto|]. split; [destruct E1; auto|dd].
+    + inversion H; subst; clear H; cbn [cdb txn nfin done]. split; auto. split; auto. split; auto. split; auto. dd.
+    + inversion H; subst; clear H; cbn [cdb txn nfin done]. split; auto. split; auto. split; auto. split; auto. dd.
+  - (* rollback *)
+    destruct t as [[|]|].
+    + destruct (db_rollback d s) as [[ok d1] s1] eqn:E. apply db_rollback_spec in E. destruct E as [E1 E2].
+      destruct ok; subst d1; inversion H; subst; clear H; cbn [cdb txn nfin done].
+      * split; [exact HC|]. split; [apply clean_DI|]. split; [apply Fr_Up; auto|]. split; [destruct E1; auto|dd].
+      * split; [exact HC|]. split; [exact HD|]. split; [apply Fr_Up; auto|]. split; [destruct E1; auto|dd].
+    + inversion H; subst; clear H; cbn [cdb txn nfin done]. split; auto. split; auto. split; auto. split; auto. dd.
+    + inversion H; subst; clear H; cbn [cdb txn nfin done]. split; auto. split; auto. split; auto. split; auto. dd.
+  - (* isolation level *)
+    destruct t as [[|]|]; try (inversion H; subst; clear H; cbn; split; auto; split; auto; split; auto; split; auto; dd).
+    + destruct (db_set_iso 1 d s) as [d1 s1] eqn:E. apply db_set_iso_spec in E. destruct E as (E1 & E2 & E3 & E4 & E5 & E6).
+      inversion H; subst; clear H; cbn. split; [dd|]. split; [unfold DI; rewrite E2, E3; auto|].
+      split; [apply Fr_Up; auto|]. split; [destruct E1; auto|dd].
+    + destruct (db_set_iso 1 d s) as [d1 s1] eqn:E. apply db_set_iso_spec in E. destruct E as (E1 & E2 & E3 & E4 & E5 & E6).
+      inversion H; subst; clear H; cbn. split; [dd|]. split; [unfold DI; rewrite E2, E3; auto|].
+      split; [apply Fr_Up; auto|]. split; [destruct E1; auto|dd].
+  - (* autocommit *)
+    destruct t as [[|]|]; try (inversion H; subst; clear H; cbn; split; auto; split; auto; split; auto; split; auto; dd).
+    + destruct (db_set_iso 2 d s) as [d1 s1] eqn:E. apply db_set_iso_spec in E. destruct E as (E1 & E2 & E3 & E4 & E5 & E6).
+      inversion H; subst; clear H; cbn. split; [dd|]. split; [unfold DI; rewrite E2, E3; auto|].
+      split; [apply Fr_Up; auto|]. split; [destruct E1; auto|dd].
+    + destruct (db_set_iso 2 d s) as [d1 s1] eqn:E. apply db_set_iso_spec in E. destruct E as (E1 & E2 & E3 & E4 & E5 & E6).
+      inversion H; subst; clear H; cbn. split; [dd|]. split; [unfold DI; rewrite E2, E3; auto|].
+      split; [apply Fr_Up; auto|]. split; [destruct E1; auto|dd].
+  - (* failing statement *)
+    destruct t as [[|]|]; inversion H; subst; clear H; cbn; split; auto; split; auto; split; auto; split; auto; dd.
+  - (* begin *)
+    destruct t as [[|]|]; inversion H; subst; clear H; cbn; split; auto; split; auto; split; auto; split; auto; dd.
+  - (* write violating a deferred constraint *)
+    destruct t as [[|]|]; inversion H; subst; clear H; cbn [cdb txn nfin done];
+      (split; [|split; [|split; [auto|split; [auto|dd]]]]); auto.
+    + intros Hn. specialize (HC Hn). unfold iso_default in *. destruct (autoc d) eqn:Ea; cbn; rewrite ?Ea; tauto.
+    + unfold DI in *. destruct (autoc d); cbn; auto.
+    + intros Hn. specialize (HC Hn). unfold iso_default in *. destruct (autoc d) eqn:Ea; cbn; rewrite ?Ea; tauto.
+    + unfold DI in *. destruct (autoc d); cbn; auto.
+  - (* close *)
+    destruct t as [[|]|].
+    + destruct (db_rollback d s) as [[ok d1] s1] eqn:E. apply db_rollback_spec in E. destruct E as [E1 E2].
+      cbn [negb andb] in H. destruct ok; subst; inversion H; subst; clear H; cbn [cdb done nfin txn].
+      * destruct (finalize_end (clean d) nf true s1) as (G1 & G2 & G3); auto; [apply clean_DI|cbn; intros; discriminate|].
+        split; auto. split; [apply clean_DI|]. split; [|split; [dd|auto]].
+        destruct E1 as (F1 & F2 & F3 & F4). unfold Up in *. rewrite <- F2, <- F3. exact G1.
+      * split; auto. split; auto. split; [apply Fr_Up; auto|]. split; [destruct E1; auto|dd].
+    + cbn [negb andb] in H. inversion H; subst; clear H; cbn [cdb done nfin txn].
+      set (s1 := if in_txn d then set_bad s else s).
+      assert (B1 : (in_txn d = true -> bad_close s1 = true) /\ Up s s1).
+      { subst s1. destruct (in_txn d); cbn; split; auto; try discriminate. unfold Up; cbn. auto. }
+      destruct B1 as [B1 B2].
+      destruct (finalize_end d nf true s1) as (G1 & G2 & G3); auto.
+      split; auto. split; auto. split; [|split; [dd|auto]].
+      unfold Up in *. destruct B2 as [B2 B3], G1 as [G1 G1']. split; [auto|].
+      intros Hu. destruct (G1' Hu) as [Hu'|?]; auto. destruct (B3 Hu') as [?|Hb]; auto.
+    + inversion H; subst; clear H; cbn [cdb done nfin txn].
+      destruct (finalize_end d nf false s) as (G1 & G2 & G3); auto; [intros; discriminate|].
+      split; auto. split; auto. split; auto. split; [dd|auto].
+  - (* drop: the weakref callback *)
+    inversion H; subst; clear H; cbn [cdb done nfin txn].
+    destruct (finalize_end d nf false s) as (G1 & G2 & G3); auto; [intros; discriminate|].
+    split; auto. split; auto. split; auto. split; [dd|auto].
+  - (* invalidate *)
+    inversion H; subst; clear H; cbn [cdb done nfin txn].
+    split; auto. split; auto. split; [unfold Up; cbn; auto|]. split; [dd|].
+    intros _. unfold PoolIso, PoolOk; cbn. auto.
+Qed.
+
+Lemma Up_trans : forall a b c, Up a b -> Up b c -> Up a c.
+Proof.
+  unfold Up; intros a b c [A1 A2] [B1 B2]. split; [auto|].
+  intros H. destruct (B2 H) as [H1|H1]; auto. destruct (A2 H1) as [H2|H2]; auto.
+Qed.
+
+Lemma do_ops_spec : forall ops c s codes codes' c' s', do_ops reset kind ops c s codes = (codes', c', s') ->
+  CI c -> DI (cdb c) -> done c = false ->
+  CI c' /\ DI (cdb c') /\ Up s s' /\
+  (done c' = false -> idle s' = idle s) /\
+  (done c' = true -> PoolIso s' /\ (reset <> RNone -> bad_close s' = false -> PoolOk s')).
+Proof.
+  induction ops as [|o r IH]; intros c s codes codes' c' s' H HC HD Hd; cbn [do_ops] in H.
+  - inversion H; subst. split; [exact HC|]. split; [exact HD|]. split; [apply Fr_Up, Fr_refl|]. split; [reflexivity|]. rewrite Hd. dd.
+  - destruct (do_op reset kind o c s) as [[code c1] s1] eqn:E.
+    destruct (do_op_spec _ _ _ _ _ _ E HC HD Hd) as (A1 & A2 & A3 & A4 & A5).
+    destruct (done c1) eqn:Ed.
+    + inversion H; subst. rewrite Ed. split; [exact A1|]. split; [exact A2|]. split; [exact A3|]. split; [dd|intros _; apply A5; reflexivity].
+    + destruct (IH _ _ _ _ _ _ H A1 A2 Ed) as (B1 & B2 & B3 & B4 & B5).
+      split; [exact B1|]. split; [exact B2|]. split; [eapply Up_trans; eauto|]. split; [|exact B5].
+      intros Hf. rewrite B4, A4; auto.
+Qed.
+
+(* the connection kept by the pool always satisfies dirty -> in_txn and has default characteristics *)
+Definition PoolDI (s : st) : Prop := match idle s with Some d => DI d | None => True end.
+
+Lemma finalize_DI : forall d nf twr s, DI d -> PoolDI (finalize reset kind d nf twr s).
+Proof.
+  intros d nf twr s HD. unfold finalize.
+  set (s0 := if twr && in_txn d then set_unsound s else s).
+  match goal with |- context [match ?e with (_, _) => _ end] =>
+    match type of e with (bool * db * st)%type => destruct e as [[ok d1] s1] eqn:E end end.
+  assert (G : ok = true -> d1 = clean d \/ d1 = d).
+  { destruct reset.
+    - destruct twr; [inversion E; auto|]. apply db_rollback_spec in E. destruct E as [_ E2]. intros ->; auto.
+    - apply db_commit_spec in E. destruct E as [_ E2]. intros ->; auto.
+    - inversion E; auto. }
+  destruct ok; [|unfold PoolDI; cbn; auto].
+  destruct (run_finalizers nf d1 s1) as [d2 s2] eqn:Er. apply run_finalizers_spec in Er.
+  destruct Er as (Rf & R5 & R6 & R7).
+  assert (D2 : DI d2).
+  { unfold DI. rewrite R5, R6. destruct (G eq_refl) as [Hg|Hg]; rewrite Hg; [apply clean_DI|exact HD]. }
+  unfold PoolDI. cbn. destruct kind; cbn; auto.
+Qed.
+
+Lemma do_op_DI : forall o c s code c' s', do_op reset kind o c s = (code, c', s') ->
+  DI (cdb c) -> PoolDI s -> done c = false -> done c' = true -> PoolDI s'.
+Proof.
+  intros o c s code c' s' H HD HP Hd0 Hdn. destruct c as [d t nf dn]. cbn [cdb done] in *. subst dn.
+  assert (ND : forall c1, done c1 = false -> (code, c1, s') = (code, c', s') -> False)
+    by (intros c1 Hc1 Heq; inversion Heq; subst; congruence).
+  destruct o; cbn [do_op cdb txn nfin done] in H.
+  - exfalso. destruct t as [[|]|]; inversion H; subst; cbn in Hdn; discriminate Hdn.
+  - exfalso. destruct t as [[|]|]; [destruct (db_commit d s) as [[[|] d1] s1]| |]; inversion H; subst; cbn in Hdn; discriminate Hdn.
+  - exfalso. destruct t as [[|]|]; [destruct (db_rollback d s) as [[[|] d1] s1]| |]; inversion H; subst; cbn in Hdn; discriminate Hdn.
+  - exfalso. destruct t as [[|]|]; [|destruct (db_set_iso 1 d s) as [d1 s1]|destruct (db_set_iso 1 d s) as [d1 s1]];
+      inversion H; subst; cbn in Hdn; discriminate Hdn.
+  - exfalso. destruct t as [[|]|]; [|destruct (db_set_iso 2 d s) as [d1 s1]|destruct (db_set_iso 2 d s) as [d1 s1]];
+      inversion H; subst; cbn in Hdn; discriminate Hdn.
+  - exfalso. destruct t as [[|]|]; inversion H; subst; cbn in Hdn; discriminate Hdn.
+  - exfalso. destruct t as [[|]|]; inversion H; subst; cbn in Hdn; discriminate Hdn.
+  - exfalso. destruct t as [[|]|]; inversion H; subst; cbn in Hdn; discriminate Hdn.
+  - (* close *)
+    destruct t as [[|]|].
+    + destruct (db_rollback d s) as [[ok d1] s1] eqn:E. apply db_rollback_spec in E. destruct E as [E1 E2].
+      cbn [negb andb] in H. destruct ok; subst; inversion H; subst; [|cbn in Hdn; discriminate].
+      apply finalize_DI, clean_DI.
+    + inversion H; subst. apply finalize_DI; auto.
+    + inversion H; subst. apply finalize_DI; auto.
+  - inversion H; subst. apply finalize_DI; auto.
+  - inversion H; subst. unfold PoolDI; cbn; auto.
+Qed.
+
+Lemma do_ops_DI : forall ops c s codes codes' c' s', do_ops reset kind ops c s codes = (codes', c', s') ->
+  CI c -> DI (cdb c) -> done c = false -> PoolDI s -> done c' = true -> PoolDI s'.
+Proof.
+  induction ops as [|o r IH]; intros c s codes codes' c' s' H HC HD Hd HP Hdn; cbn [do_ops] in H.
+  - inversion H; subst. congruence.
+  - destruct (do_op reset kind o c s) as [[code c1] s1] eqn:E.
+    destruct (do_op_spec _ _ _ _ _ _ E HC HD Hd) as (A1 & A2 & A3 & A4 & A5).
+    destruct (done c1) eqn:Ed.
+    + inversion H; subst. eapply do_op_DI; eauto.
+    + eapply IH; eauto. unfold PoolDI. rewrite A4; auto.
+Qed.
+
+(* ---- one user *)
+Definition PoolAll (s : st) : Prop := PoolIso s /\ PoolDI s /\ (reset <> RNone -> bad_close s = false -> PoolOk s).
+
+Lemma checkout_spec : forall s, PoolAll s ->
+  let d := fst (checkout s) in let s0 := snd (checkout s) in
+  iso_default d /\ DI d /\ (reset <> RNone -> bad_close s = false -> pristine d = true) /\
+  idle s0 = None /\ bad_close s0 = bad_close s /\ twr_unsound s0 = twr_unsound s.
+Proof.
+  intros s (P1 & P2 & P3). unfold checkout, PoolIso, PoolDI, PoolOk in *. destruct (idle s) as [d|]; cbn.
+  - split; [exact P1|]. split; [exact P2|]. split; [exact P3|]. repeat split.
+  - split; [split; reflexivity|]. split; [intros H; discriminate H|]. split; [reflexivity|]. repeat split.
+Qed.
+
+Lemma user_spec : forall ops s, PoolAll s ->
+  let s' := snd (user reset kind ops s) in
+  PoolAll s' /\ Up s s'.
+Proof.
+  intros ops s HP. unfold user.
+  destruct (checkout_spec s HP) as (C1 & C2 & C3 & C4 & C5 & C6).
+  destruct (checkout s) as [d s0] eqn:Ec. cbn [fst snd] in *.
+  set (s1 := mkst (idle s0) (nconn s0) (faults s0) [] (bad_close s0) (twr_unsound s0)).
+  destruct (do_ops reset kind ops (mkcst d None O false) s1 []) as [[codes c] s2] eqn:E.
+  assert (HC : CI (mkcst d None O false)) by (intros _; exact C1).
+  destruct (do_ops_spec _ _ _ _ _ _ _ E HC C2 eq_refl) as (A1 & A2 & A3 & A4 & A5).
+  assert (U01 : Up s s1) by (unfold Up; subst s1; cbn; rewrite C5, C6; auto).
+  cbn [snd]. destruct (done c) eqn:Ed.
+  - destruct (A5 eq_refl) as [B1 B2]. split; [|eapply Up_trans; eauto].
+    split; [exact B1|]. split; [|exact B2].
+    eapply do_ops_DI; eauto. unfold PoolDI; subst s1; cbn. rewrite C4. exact I.
+  - (* never returned: the garbage collector finalises the fairy *)
+    destruct (finalize_end (cdb c) (nfin c) false s2 A1 A2) as (G1 & G2 & G3); [intros; discriminate|].
+    split; [|eapply Up_trans; [exact U01|]; eapply Up_trans; eauto].
+    split; [exact G2|]. split; [apply finalize_DI; auto|exact G3].
+Qed.
+
+Lemma run_spec : forall us s, PoolAll s -> PoolAll (run reset kind us s) /\ Up s (run reset kind us s).
+Proof.
+  induction us as [|u r IH]; intros s HP; cbn [run].
+  - split; auto. apply Fr_Up, Fr_refl.
+  - destruct (user_spec u s HP) as [A1 A2]. destruct (IH _ A1) as [B1 B2]. split; auto. eapply Up_trans; eauto.
+Qed.
+
+Lemma init_PoolAll : forall fl, PoolAll (init fl).
+Proof. intros; unfold PoolAll, PoolIso, PoolDI, PoolOk; cbn; auto. Qed.
+
+(* ---------------------------------------------------------------- the theorems *)
+(* clean_on_checkout (guarded): with reset_on_return enabled, for every history of users and every
+   fault script, unless some close() ran with an inactive transaction object attached over an open
+   DBAPI transaction, the connection handed to the next checkout is pristine *)
+Theorem clean_on_checkout_guarded : reset <> RNone -> forall us fl,
+  let s := run reset kind us (init fl) in
+  bad_close s = false -> pristine (next_checkout s) = true.
+Proof.
+  intros Hr us fl s Hb. destruct (run_spec us _ (init_PoolAll fl)) as [HP _]. fold s in HP.
+  destruct (checkout_spec s HP) as (_ & _ & C3 & _). exact (C3 Hr Hb).
+Qed.
+
+(* characteristics_restored: whatever the reset style and whatever happened (also in the defective
+   region): the next checkout sees the default isolation level / autocommit setting *)
+Theorem characteristics_restored : forall us fl,
+  iso_default (next_checkout (run reset kind us (init fl))).
+Proof.
+  intros us fl. destruct (run_spec us _ (init_PoolAll fl)) as [HP _].
+  destruct (checkout_spec _ HP) as (C1 & _). exact C1.
+Qed.
+
+(* ... and while a connection is checked out every characteristic that was set has a pending finaliser *)
+Theorem finaliser_pending : forall ops d s codes c s',
+  iso_default d -> DI d ->
+  do_ops reset kind ops (mkcst d None O false) s [] = (codes, c, s') ->
+  nfin c = O -> iso_default (cdb c).
+Proof.
+  intros ops d s codes c s' Hd HD H.
+  assert (HC : CI (mkcst d None O false)) by (intros _; exact Hd).
+  destruct (do_ops_spec _ _ _ _ _ _ _ H HC HD eq_refl) as (A1 & _). exact A1.
+Qed.
+
+(* reset_exactly_once_or_skipped_soundly: transaction_was_reset=True reaches _reset over an open
+   DBAPI transaction only in the defective region *)
+Theorem reset_skipped_soundly : forall us fl,
+  let s := run reset kind us (init fl) in
+  twr_unsound s = true -> bad_close s = true.
+Proof.
+  intros us fl s H. destruct (run_spec us _ (init_PoolAll fl)) as [_ [U1 U2]]. fold s in U2.
+  destruct (U2 H) as [H1|H1]; [cbn in H1; discriminate|exact H1].
+Qed.
+
 End P.
